@@ -3,6 +3,9 @@
 import json, os, glob
 HERE = os.path.dirname(os.path.dirname(os.path.abspath(__file__)))
 CHECKS = {
+ "C19": dict(cat="model_checking", tech="exhaustive exploration of rule orders x validator orders (instance set replaced by an ordered list) x exclusion tables x operation histories (validate / convert / to_dict) on the real SigmaValidator; reference model for unused / dangling / uniqueness groups; before/after snapshots",
+             text="(A) all condition trees up to the bound over names and selectors: dangling-detection and dangling-condition issue sets equal the reference; (B) every built-in validator alone and all together in every history of <= 3 operations leave dict form, queries (two backend configurations) and structure unchanged and report the same issues on every run; (C) every ordered collection of <= 3-4 rules over id/title/filename combinations, every order of the stateful validators and exclusion tables: issue multiset equals the reference groups.",
+             note="attacktag and d3_fendtag validators need network access and are excluded; issue list order is not judged", ref="§3 C19"),
  "C13": dict(cat="model_checking", tech="explicit-state exploration over histories of preceding pipeline items x complete sweep of one condition group (lists, linking, negation, all expression trees up to the operator bound) with the other groups over reduced forms, on the real ProcessingPipeline.apply; marker-set invariant against a reference evaluation",
              text="For every history of <= 2 preceding items (state, log source, rename) and every judged item of the swept space, the set of detection-item fields, field references, fields-list entries and string values carrying the marker must equal the reference evaluation of rule / detection-item / field-name groups (linking, negation flags, expressions, empty groups always apply, applied/state conditions observing the model of items applied so far).",
              note="reference leaf semantics for 30 pool conditions written from the documentation; one probe rule", ref="§3 C13"),
